@@ -51,7 +51,7 @@ def _spectrum(case):
         # square but not Hermitian (as produced by the one-sided, exponentially windowed correlogram)
         G = rng.normal(size=(Sy.shape[1], Sy.shape[1])) * 0.3 + np.eye(Sy.shape[1])
         Sy = np.einsum("ijk,jl->ilk", Sy, G + 0.2j * rng.normal(size=G.shape))
-    return freq, Sy, f0
+    return freq, Sy * case.get("level", 1.0), f0
 
 
 @st.composite
@@ -65,7 +65,8 @@ def pick_case(draw):
     sel = [draw(st.floats(0.0, 1.0)) * fs / 2 for _ in range(nsel)]
     return {"n": n, "half": half, "nref": draw(st.integers(2, n)) if half else n, "nf": nf, "fs": fs, "nmodes": draw(st.integers(0, 4)),
             "complex": draw(st.booleans()), "floor": draw(st.sampled_from([1e-1, 1e-3, 1e-6])), "seed": draw(st.integers(0, 2**32 - 1)),
-            "sel": sel, "DFm": draw(st.one_of(st.floats(1.0, 6.0), st.floats(1.0, 60.0))), "nonherm": draw(st.integers(0, 3)) == 0}
+            "sel": sel, "DFm": draw(st.one_of(st.floats(1.0, 6.0), st.floats(1.0, 60.0))), "nonherm": draw(st.integers(0, 3)) == 0,
+            "level": draw(st.sampled_from([1.0, 1.0, 1e-10, 1e8, 1e-14]))}  # overall level of the spectra (units / signal amplitude)
 
 
 def _oracle_pick(j, tag, freq, Sy, sel, DF, Fn, Phi):
@@ -131,7 +132,7 @@ def judge_pick(case):
 def judge_decomposition(case):
     j = J()
     freq, Sy, _ = _spectrum(case)
-    j.tag("half" if case["half"] else "hermitian")
+    j.tag("half" if case["half"] else "hermitian", "level=1" if case.get("level", 1.0) == 1.0 else "level!=1", "complex" if case["complex"] else "real")
     j.nontrivial(True)
     out = sut(fdd.SD_svalsvec, Sy.copy())
     if not j.check(not raised(out), "svalsvec-raises", lambda: f"{out!r}"):
@@ -164,6 +165,13 @@ def judge_decomposition(case):
         ref = Sy[:, :, k] @ Sy[:, :, k].conj().T
         j.check(np.max(np.abs(G - ref)) <= 1e-9 * np.max(np.abs(ref)), "decomp-faithful", lambda: f"line {k}: U diag(sigma^2) U^H differs from Sy Sy^H")
     j.check(len(kinds) <= 1, "decomp-consistent", lambda: f"stored values mix conventions across lines: {kinds}")
+    # a later decomposition of another spectrum of the same shape must leave the arrays handed out before untouched
+    keep = (out[0], out[1])
+    snap = (np.array(out[0], copy=True), np.array(out[1], copy=True))
+    other = sut(fdd.SD_svalsvec, (Sy[:, :, ::-1] * 1.7 + 0.1 * Sy).copy())
+    if not raised(other):
+        j.check(np.array_equal(np.asarray(keep[0]), snap[0]) and np.array_equal(np.asarray(keep[1]), snap[1]), "decomp-overwritten",
+                "singular values / vectors returned earlier changed when another spectrum of the same shape was decomposed")
     return j
 
 
